@@ -252,6 +252,10 @@ def run_apalache(ctx, module, inv, length=0, init=None, cinit=None, timeout=300,
 
 # ----------------------------------------------------------------------------- context
 
+import threading as _threading
+_scratch_lock = _threading.Lock()
+
+
 class Ctx:
     def __init__(self, pid, tier, seed, level, replay=None):
         self.pid = pid
@@ -271,8 +275,10 @@ class Ctx:
         self.known = json.load(open(kf)) if os.path.exists(kf) else {"findings": []}
 
     def scratch_dir(self, name):
-        self._n += 1
-        d = os.path.join(self.scratch, "%s%d" % (name, self._n))
+        with _scratch_lock:
+            self._n += 1
+            k = self._n
+        d = os.path.join(self.scratch, "%s%d" % (name, k))
         os.makedirs(d)
         return d
 
